@@ -279,8 +279,8 @@ struct ValueFlowAnalyzer : Analyzer {
         if (!(value->isIntValue() || value->isFloatValue() || value->isSymbolicValue() || value->isLifetimeValue()))
             return Action::None;
         const Token* parent = tok->astParent();
-        // Only if its invertible
-        if (value->isImpossible() && !Token::Match(parent, "+=|-=|*=|++|--"))
+        // Only if its invertible ("*=" is not: a factor of zero or less does not keep an impossible value or its bound)
+        if (value->isImpossible() && !Token::Match(parent, "+=|-=|++|--"))
             return Action::None;
         if (value->isLifetimeValue()) {
             if (value->lifetimeKind != ValueFlow::Value::LifetimeKind::Iterator)
